@@ -1,12 +1,181 @@
 /-
   Props/C16 — decoded values are independent of the input buffer and of the allocator configuration.
-  (property theorems only; lemmas in Lemmas/Mem*.lean)
--/
-import Verif.Base.Mem
-namespace Verif.C16
-open Verif
+  (property theorems + non-vacuity examples only; lemmas in Lemmas/MemDecode.lean)
 
-/-- the capacity the pool hands out is never smaller than the request -/
-theorem mcap_ge (c : Nat) : c ≤ Heap.mcap c := le_mcap c
+  Setting: the object-level heap of Base/Mem.lean.  A decoded value is a slice; "independent copy" means
+  its CAPACITY region (what the value occupies and what `append` may write in place) shares no byte with
+  the input or with any other value (`Slice.CapDisjoint`).  Modelled, not verified (DESIGN §7): the span
+  allocator (`Span.make`, written from lang/span/span.go; the CAS fallback under contention is the flag
+  `contended`), Go's `[]byte(string(..))` / `string(..)` (a fresh Go-heap object of arbitrary spare
+  capacity `slack`), `dirtmake.Bytes`, `append`.  Racing goroutines are runtime behaviour.
+-/
+import Verif.Lemmas.MemDecode
+namespace Verif.C16
+open Verif Verif.Mem Verif.Heap
+
+/-! ## the span allocator contract -/
+
+/-- span_disjoint: `spanCache.Make(n)` — on every path: below / inside / above the size classes (0,
+    < 128 B, 128 B … 128 KiB, larger), lock contention, and the wrap to a new span buffer when the
+    current one is exhausted — returns a slice with cap = len = n inside a Go-heap object whose capacity
+    region is disjoint from EVERY slice that respects the reserve lines (`Below`), and afterwards the result
+    respects them too.  By induction successive results are pairwise disjoint (see `decodes_independent`). -/
+theorem span_disjoint (c : SpanCache) (h : Heap) (n : Nat) (contended : Bool) (hi : CacheInv c h) :
+    let r := c.make h n contended
+    r.1.len = n ∧ r.1.cap = n ∧ CacheInv r.2.1 r.2.2 ∧ Below r.2.1 r.2.2 r.1 ∧
+    (∀ f : Slice, Below c h f → r.1.CapDisjoint f ∧ Below r.2.1 r.2.2 f) := by
+  obtain ⟨a, b, c1, _, _, _, _, d, e⟩ := cache_make_ok c h n contended hi
+  exact ⟨a, b, c1, d, e⟩
+
+/-- `NewSpanCache(size)` establishes the cache invariant, and everything that existed before respects the
+    reserve lines -/
+theorem span_init (h : Heap) (size : Nat) (hs : size < 4294967296) :
+    CacheInv (SpanCache.new h size).1 (SpanCache.new h size).2 ∧
+    ∀ f : Slice, f.obj < h.size → Below (SpanCache.new h size).1 (SpanCache.new h size).2 f :=
+  cacheInv_new h size hs
+
+/-! ## Binary.ReadBinary / ReadString -/
+
+/-- read_fresh (Binary): with the span cache on or off, contended or not, a successful
+    `Binary.ReadBinary` / `ReadString` returns a slice in a Go-heap object whose capacity region is
+    disjoint from the input and from every earlier result (every slice below the reserve lines); it
+    holds exactly the bytes `buf[4:l]`; with the span cache on, cap = len (an append must reallocate);
+    the decode wrote nothing but the result's own bytes and logged no fault. -/
+theorem read_fresh (cfg : DecCfg) (c : SpanCache) (h : Heap) (buf s : Slice) (l : Nat)
+    (c' : SpanCache) (h' : Heap) (hc : CacheInv c h) (hin : InputOK h buf) (hb : Below c h buf)
+    (hrun : binReadBinary cfg c h buf = (.ok (s, l), c', h')) :
+    s.CapDisjoint buf ∧ (∀ f : Slice, Below c h f → s.CapDisjoint f) ∧
+    h'.view s = h.bytes buf.obj (buf.off + 4) (l - 4) ∧ (cfg.spanOn = true → s.cap = s.len) ∧
+    OnlyWrote h h' s ∧ h'.faults = h.faults := by
+  obtain ⟨_, _, _, _, a5, a6, a7, a8, _, _, a11, a12, _⟩ := binReadBinary_ok cfg c h buf s l c' h' hc hin hb hrun
+  exact ⟨a7, fun f hf => (a8 f hf).1, a6, a5, a11, a12⟩
+
+/-- decodes_independent: two successive decodes (any configurations, any inputs — the second input may
+    even be the first result): the second result is disjoint from the first result and from both inputs,
+    and the first result still holds the same bytes after the second decode. -/
+theorem decodes_independent (cfg1 cfg2 : DecCfg) (c : SpanCache) (h : Heap) (b1 b2 s1 s2 : Slice) (l1 l2 : Nat)
+    (c1 c2 : SpanCache) (h1 h2 : Heap) (hc : CacheInv c h) (hin1 : InputOK h b1) (hb1 : Below c h b1)
+    (hin2 : InputOK h1 b2) (hb2 : Below c1 h1 b2)
+    (hr1 : binReadBinary cfg1 c h b1 = (.ok (s1, l1), c1, h1))
+    (hr2 : binReadBinary cfg2 c1 h1 b2 = (.ok (s2, l2), c2, h2)) :
+    s2.CapDisjoint s1 ∧ s2.CapDisjoint b1 ∧ s2.CapDisjoint b2 ∧ h2.view s1 = h1.view s1 := by
+  obtain ⟨_, _, _, p4, _, _, _, p8, p9, p10, _, _, _, ⟨x1, hx1, _, _⟩⟩ :=
+    binReadBinary_ok cfg1 c h b1 s1 l1 c1 h1 hc hin1 hb1 hr1
+  obtain ⟨_, _, _, q4, _, _, q7, q8, _, _, q11, _, _, _⟩ := binReadBinary_ok cfg2 c1 h1 b2 s2 l2 c2 h2 p10 hin2 hb2 hr2
+  refine ⟨(q8 s1 p9).1, (q8 b1 (p8 b1 hb1).2).1, q7, ?_⟩
+  exact view_of_onlyWrote q11 (obj?_lt h1 _ x1 hx1) p4 (q8 s1 p9).1 q4
+
+/-- flag_irrelevant: with the span cache enabled or disabled (and whatever the contention flag and the
+    runtime's spare capacity), the decoder fails with the same error, or succeeds with the same consumed
+    length and the same VALUE. -/
+theorem flag_irrelevant (cfg1 cfg2 : DecCfg) (c : SpanCache) (h : Heap) (buf : Slice)
+    (hc : CacheInv c h) (hin : InputOK h buf) (hb : Below c h buf) :
+    match (binReadBinary cfg1 c h buf).1, (binReadBinary cfg2 c h buf).1 with
+    | .ok (s1, l1), .ok (s2, l2) =>
+        l1 = l2 ∧ (binReadBinary cfg1 c h buf).2.2.view s1 = (binReadBinary cfg2 c h buf).2.2.view s2
+    | .error e1, .error e2 => e1 = e2
+    | _, _ => False := by
+  have g1 := binReadBinary_head cfg1 c h buf
+  have g2 := binReadBinary_head cfg2 c h buf
+  cases h1 : (binReadBinary cfg1 c h buf).1 with
+  | ok p1 =>
+    cases h2 : (binReadBinary cfg2 c h buf).1 with
+    | ok p2 =>
+      obtain ⟨s1, l1⟩ := p1
+      obtain ⟨s2, l2⟩ := p2
+      rw [h1] at g1; rw [h2] at g2
+      simp only [] at g1 g2
+      have hl : l1 = l2 := by
+        have := g1.trans g2.symm
+        simpa using this
+      subst hl
+      have e1 : binReadBinary cfg1 c h buf = (.ok (s1, l1), (binReadBinary cfg1 c h buf).2.1, (binReadBinary cfg1 c h buf).2.2) := by
+        rw [← h1]
+      have e2 : binReadBinary cfg2 c h buf = (.ok (s2, l1), (binReadBinary cfg2 c h buf).2.1, (binReadBinary cfg2 c h buf).2.2) := by
+        rw [← h2]
+      obtain ⟨_, _, _, _, _, a6, _⟩ := binReadBinary_ok cfg1 c h buf s1 l1 _ _ hc hin hb e1
+      obtain ⟨_, _, _, _, _, b6, _⟩ := binReadBinary_ok cfg2 c h buf s2 l1 _ _ hc hin hb e2
+      exact ⟨rfl, by rw [a6, b6]⟩
+    | error e2 =>
+      rw [h1] at g1; rw [h2] at g2
+      simp only [] at g1 g2
+      have := g1.trans g2.symm
+      simp at this
+  | error e1 =>
+    cases h2 : (binReadBinary cfg2 c h buf).1 with
+    | ok p2 =>
+      rw [h1] at g1; rw [h2] at g2
+      simp only [] at g1 g2
+      have := g1.trans g2.symm
+      simp at this
+    | error e2 =>
+      rw [h1] at g1; rw [h2] at g2
+      simp only [] at g1 g2
+      have := g1.trans g2.symm
+      simpa using this
+
+/-! ## BufferReader.ReadBinary / ReadString -/
+
+/-- read_fresh (BufferReader): a successful `BufferReader.ReadBinary` / `ReadString` returns the full
+    slice (cap = len) of a Go-heap object that did not exist before the call — so it is disjoint from the
+    reader's buffers, from the caller's input and from every earlier result — and leaves every older
+    Go-heap object (every earlier result) untouched; the reader's ownership invariant is kept. -/
+theorem read_fresh_stream (r : MRd) (h : Heap) (s : Slice) (e : Option TErr) (r' : MRd) (h' : Heap)
+    (hi : RInv r h) (hrun : brReadBinary r h = ((some s, e), r', h')) :
+    RInv r' h' ∧ h.size ≤ s.obj ∧ s.cap = s.len ∧ (∀ f : Slice, f.obj < h.size → s.CapDisjoint f) ∧
+    (∃ x, h'.obj? s.obj = some x ∧ x.owner = .gc) ∧ GcKept h h' := by
+  obtain ⟨a, b, _, d, ⟨x, hx, hg, _⟩, f⟩ := brReadBinary_ok r h s e r' h' hi hrun
+  exact ⟨a, b, d, fun f hf => by unfold Slice.CapDisjoint; right; right; left; omega, ⟨x, hx, hg⟩, f⟩
+
+/-- mutate_input_safe (stream): whatever happens to the reader's buffers afterwards — more reads that
+    grow and park buffers, Skip, Release that recycles them into the pool, the co-tenant overwriting the
+    recycled buffers — an object of the Go heap (every value returned earlier) keeps its content. -/
+theorem stream_value_stable (r : MRd) (h : Heap) (hi : RInv r h) (o : Nat) (x : Obj)
+    (hx : h.obj? o = some x) (hg : x.owner = .gc) :
+    (∀ n, (r.next h n).2.2.obj? o = some x) ∧ (∀ n, (r.peek h n).2.2.obj? o = some x) ∧
+    (∀ n, (r.skip h n).2.2.obj? o = some x) ∧ (r.release h).2.obj? o = some x ∧
+    (∀ s e r' h', brReadBinary r h = ((some s, e), r', h') → h'.obj? o = some x) ∧
+    (∀ h', Env h h' → ∃ x', h'.obj? o = some x' ∧ x'.owner = .gc ∧ x'.data = x.data) :=
+  ⟨fun n => next_gckept r h n hi o x hx hg, fun n => peek_gckept r h n hi o x hx hg,
+   fun n => skip_gckept r h n hi o x hx hg, release_gckept r h hi o x hx hg,
+   fun s e r' h' hrun => (brReadBinary_ok r h s e r' h' hi hrun).2.2.2.2.2 o x hx hg,
+   fun h' he => env_gckept he o x hx hg⟩
+
+/-! ## what the user does with input and results -/
+
+/-- mutate_input_safe: overwriting any part of the input's capacity region leaves a value whose capacity
+    region is disjoint from the input (every decoded value, by `read_fresh`) unchanged. -/
+theorem mutate_input_safe (h : Heap) (buf s : Slice) (p : Nat) (d : Bytes)
+    (hp : buf.off ≤ p ∧ p + d.length ≤ buf.off + buf.cap)
+    (hbuf : ∀ x, h.obj? buf.obj = some x → buf.off + buf.cap ≤ x.data.length)
+    (hd : s.CapDisjoint buf) (hsl : s.len ≤ s.cap) : (h.userWrite buf.obj p d).view s = h.view s :=
+  userWrite_disjoint h buf s p d hp hbuf hd hsl
+
+/-- append_result_safe: appending to a returned byte slice (in place when the runtime left spare
+    capacity, else into a fresh allocation) or overwriting it yields the old content followed by the new
+    bytes and changes neither the input nor any other value whose capacity region is disjoint from it. -/
+theorem append_result_safe (h : Heap) (s : Slice) (d : Bytes) (slack : Nat)
+    (hs : s.len ≤ s.cap ∧ ∃ x, h.obj? s.obj = some x ∧ s.off + s.cap ≤ x.data.length) :
+    (goAppend h s d slack).2.view (goAppend h s d slack).1 = h.view s ++ d ∧
+    (∀ f : Slice, f.obj < h.size → f.len ≤ f.cap → f.CapDisjoint s →
+      (goAppend h s d slack).2.view f = h.view f) ∧
+    (∀ f : Slice, f.len ≤ f.cap → f.CapDisjoint s → ∀ d', d'.length ≤ s.len →
+      (h.userWrite s.obj s.off d').view f = h.view f) := by
+  obtain ⟨a, b⟩ := goAppend_ok h s d slack hs
+  obtain ⟨hl, x, hx, hb⟩ := hs
+  exact ⟨a, b, fun f hfl hd d' hd' =>
+    userWrite_disjoint h s f s.off d' (by omega) (fun y hy => by rw [hx] at hy; cases hy; exact hb) hd hfl⟩
+
+/-! ## non-vacuity -/
+
+/-- a span cache of ten 4-byte spans satisfies the invariant -/
+example : CacheInv (SpanCache.new (Heap.empty (fun _ _ => 0)) 4).1 (SpanCache.new (Heap.empty (fun _ _ => 0)) 4).2 :=
+  (span_init _ 4 (by decide)).1
+
+/-- decoding `00 00 00 02 61 62` from caller memory with the span cache off succeeds with the value `ab` -/
+example : let h0 := (Heap.empty (fun _ _ => 0)).callerAlloc [0, 0, 0, 2, 97, 98] 6 6
+    let c0 := SpanCache.new h0.2 4
+    ∃ s l c' h', binReadBinary ⟨false, false, 3⟩ c0.1 c0.2 h0.1 = (.ok (s, l), c', h') ∧ l = 6 ∧ h'.view s = [97, 98] :=
+  ⟨_, _, _, _, rfl, rfl, by decide⟩
 
 end Verif.C16
